@@ -305,6 +305,8 @@ def run(check, an: Analysis):
     # a cancellation thrown into a task that owns a scope leaves that scope as itself
     from . import c05, c04
     c05.check_own_exception_wins(check, an, 'K', [CANCEL_TASK])
+    # ... also when the cancellation arrives while the task waits at the end of a block
+    _scope.check_foreign_signal_leaves_exit(check, an, 'K')
     # closing marks a task done whether it has started or not (awaiters resume)
     c04.check_task_close(check, an, 'X')
     # ---- typestate ----------------------------------------------------------
